@@ -1,7 +1,7 @@
 """Per-property check definitions: which model families are run and how their findings are attributed."""
 import json, os
 from . import common
-from .cgt import cgt_family, combine, fam_list
+from .cgt import cgt_family, law_family, combine, fam_list
 
 
 def c01(tier, seed):
@@ -37,10 +37,30 @@ def c06(tier, seed):
 
 
 def c09(tier, seed):
-    return combine(fam_list(tier, ['two_q'], ['two_t']), 'covered',
+    return combine(fam_list(tier, ['two_q'], ['two_t']) + laws(tier, ['project_q'], ['project_t']), ['covered', 'nontrivial'],
                    'two-security cell ledgers (TLC checks OthersUntouched on every step); each security\'s legs, costs and '
                    'holding must equal the single-security specification outcome whatever the other security does and '
                    'wherever its lines sit; non-trivial = accepted ledgers')
+
+
+def laws(tier, quick, thorough):
+    return [law_family(n) for n in (quick if tier == 'quick' else quick + thorough)]
+
+
+def c10(tier, seed):
+    return combine(laws(tier, ['rescale_q', 'unsplit_q'], ['rescale_t', 'rescale5_t', 'unsplit_t']) + fam_list(tier, ['split_q'], ['split_t', 'events_split_t']),
+                   ['nontrivial', 'with_splits'],
+                   'pairs (ledger with one split at every position, same ledger rewritten in post-split units) and (ledger, '
+                   'ledger + SPLIT f .. UNSPLIT f with no trade between): TLC checks the law between the two specification '
+                   'runs, the harness demands the same relation between two implementation runs; plus the split families '
+                   'against the specification outcome; non-trivial = accepted pairs with a multi-leg disposal / split ledgers')
+
+
+def c12(tier, seed):
+    return combine(laws(tier, ['extend_q'], ['extend_t']), 'nontrivial',
+                   'pairs (prefix, prefix + buys/sells/splits dated more than 30 days after it): TLC checks that the '
+                   'prefix\'s legs are unchanged and that a failure can only be dated in the extension; the harness demands '
+                   'the same of two implementation runs; non-trivial = accepted prefixes with at least one disposal')
 
 
 def c11(tier, seed):
@@ -51,7 +71,7 @@ def c11(tier, seed):
                    'non-trivial = ledgers with a cost event')
 
 
-PROPS = {'C01': c01, 'C02': c02, 'C03': c03, 'C05': c05, 'C06': c06, 'C09': c09, 'C11': c11}
+PROPS = {'C01': c01, 'C02': c02, 'C03': c03, 'C05': c05, 'C06': c06, 'C09': c09, 'C10': c10, 'C11': c11, 'C12': c12}
 
 
 def replay(prop, path):
